@@ -35,7 +35,8 @@ RULE = (
 )
 TRUSTED = [
     "modelled, not verified: rule_db/forest.py ForestRuleExtractor._sorted_stable_rules/_minimize/_minimize_key/"
-    "_is_productive/check — Forest/Extractor.v tied by this correspondence (needed_rules compared as a list)",
+    "_is_productive/check — Forest/Extractor.v tied by this correspondence (needed_rules compared as a list, on the generated "
+    "key lists and on table_method._rules of every live search case that found a specification)",
     "modelled, not verified: ForestRuleExtractor._find_rule/_rules_for_class/rules() - Forest/FindRule.v over the "
     "strategy table and class database of the C04 searcher model, tied by the search cases of this correspondence "
     "(returned rule objects, yielded rules, class database compared exactly); user strategies are table strategies "
@@ -48,8 +49,9 @@ ASSUMPTIONS = [
     "termination/totality are proved for the MODEL (C11_never_out_of_fuel, C11_total); the real extractor is tied to it by the "
     "correspondence only (a looping change of forest.py shows up as a case timeout, never as agreement: "
     "C11_harness_never_out_of_fuel)",
-    "closedness and one-rule-per-class of the minimal set are NOT proved (energy-game determinacy); they are "
-    "decided per instance by the oracle, and a failing self-check (AssertionError) is reported as a violation",
+    "closedness and one-rule-per-class of the minimal set are theorems about the model (C11_closed_total, "
+    "C11_one_rule_per_class); on the code they are also decided per instance by the oracle (abstract key cases and live key "
+    "sets), and a failing self-check (AssertionError) is reported as a violation",
     "search cases: strategies are pure functions of the class (the table); the pack order given to the model is "
     "list(StrategyPack) of the real pack; a _find_rule failure is excused only when the table broke the strategy "
     "contracts on a label of the key (the emptiness cache of that label was written with a wrong or with two different "
@@ -176,6 +178,12 @@ def oracle(case, res):
     S = res["needed"]
     if not res["check"]:
         return "the extractor's own check() failed (AssertionError)"
+    return key_oracle(keys, root, S)
+
+
+def key_oracle(keys, root, S):
+    """clauses 1-6 decided on a key list `keys` (inserted keys), the start label and the extracted list S, by the
+    Kleene iteration; used for the abstract key cases and for the live key sets of the search cases"""
     pool = [k for k in keys]
     for k in S:
         if k not in pool:
@@ -211,7 +219,7 @@ def key(case):
     if case.get("kind") == "search":
         import json
 
-        return json.dumps([case["u"], case["rev"], case["comp"], case["cache"]], sort_keys=True)
+        return json.dumps([case["u"], case["rev"], case["comp"], case["cache"], case.get("extra", 0)], sort_keys=True)
     return str((case["root"], case["keys"]))
 
 
@@ -337,6 +345,15 @@ def extra_checks(ctx):
     from harness import gen_selftest
 
     res.append(FR.strict_agreement(ctx.cases, ctx.impl_res))
+    res.extend(FR.live_model_check(len(ctx.cases) >= 5000))
+    # the mode of the _find_rule model is chosen by probing the code under test (FR.scan_mode): the mode is a verdict
+    mode = FR.scan_mode()
+    res.append(("repair 587ab8a in force: ForestRuleExtractor._find_rule goes on with every other class in use when the "
+                "classes of the key yield no such rule (the model runs scan mode %d)" % mode, mode == 1,
+                "ok" if mode == 1 else "failing input: the smallest foreign-parent universe (Props/C11.v ff_T; "
+                "harness/props/c11_find.py scan_mode): a factory applied to class 0 yields the ready rule 1 -> (2); "
+                "_find_rule(ForestRuleKey(1, (2,), (0,), EQUIV)) raises RuntimeError although the key was handed out "
+                "(C11_find_rule_total_with_repair no longer describes the code; the fixed finding returned)"))
     return res + [gen_selftest.rejects(_BAD_SNIPPETS)] + gen_selftest.checks(GEN_TARGETS, ctx.seed, ID)
 
 
@@ -418,3 +435,26 @@ LEVEL_NOTE += (
 RULE += (
     " Extra checks that can fail: every extracted key of the foreign-parent word universe (finding fixed by 587ab8a) must be re-created; the strict-agreement comparison must have a sample of >= 100 found searches; a _find_rule failure is excused as cache poisoning only if the TABLE really breaks pe_contract / sym_contract (C04's predicates), not on cache-write evidence alone."
 )
+
+# live key sets (CLAUSES.md G.1 item 3, cheap first step)
+RULE += (
+    " LIVE KEY SETS: for every search case that found a specification, css.ruledb.table_method._rules (every key RuleDBForest.add "
+    "handed over during the search, insertion order, all buckets, duplicates kept) and the root label are (a) judged by the same "
+    "Kleene-iteration oracle as the abstract key cases against the real extractor's needed_rules (subset / productive / minimal / "
+    "one rule per class / closed / no bucket-REVERSE key when the others suffice) - a failure is a violation with the search case "
+    "as replay - and (b) sent, in the encoding of the abstract key cases (_enc_key), through ONE extra call of the extracted "
+    "extractor model run_c11 whose [status, needed_rules, check] must equal the real extractor's as a list (extra check; a "
+    "difference is reported with the (root, keys) pair written as a replayable abstract case). Number of sets, sizes and bucket "
+    "mix are in the evidence (floors on a full run: >= 500 sets, >= 500 bucket-REVERSE keys, a set of >= 30 keys)."
+)
+LEVEL_NOTE += (
+    " The extractor model the theorems C11_subset / _productive / _minimal / _closed_total / _one_rule_per_class / "
+    "_all_classes_pump / _reverse_last_total speak about is tied to the code on generated key lists AND on live ones: for every "
+    "real RuleDBForest search of this check that found a specification the extracted run_c11 is run on "
+    "table_method._rules of that search and must return the real ForestRuleExtractor's needed_rules, as a list (live universes "
+    "contain what the abstract generator never produces: EQUIV keys with several children and non-zero shifts, VERIFICATION keys "
+    "with children, self-loops, the same key several times, up to ~80 keys). Still not a theorem: that these keys are what "
+    "add_keys of the searcher model emits (no EvKey -> bkey conversion); the (B) half (_find_rule) still receives the needed keys "
+    "read off the real extractor."
+)
+
